@@ -68,8 +68,20 @@ func checkTracked() string {
 	return s
 }
 
+// arguments are snapshotted with everything a caller can observe, incl. the zone a timestamp is expressed in
+func deepEntries(el protocol.EntryList) string {
+	var sb strings.Builder
+	for _, e := range el {
+		sb.WriteString(e.Timestamp.Time.String())
+		sb.WriteString("|")
+		sb.WriteString(renderVal(e.Record))
+		sb.WriteString(";")
+	}
+	return sb.String()
+}
+
 func trackEntries(es []absEntry, el protocol.EntryList) {
-	track(true, "entries-arg", func() string { return renderEntries(el) })
+	track(true, "entries-arg", func() string { return deepEntries(el) })
 	_ = es
 }
 
@@ -256,6 +268,7 @@ func init() {
 		if err != nil {
 			return a, "err" + checkTracked()
 		}
+		track(false, "chunk-string", func() string { return hx([]byte(c)) })
 		return a, "ok " + hx([]byte(c)) + checkTracked()
 	}
 	suites["packed"] = genPacked
@@ -268,6 +281,16 @@ func genEntriesTok(r *Rng, tier string) string {
 		n = 0
 	case 1:
 		n = 15 + r.Intn(20)
+	}
+	if r.Chance(4) {
+		// a stream of tens of KiB built from many tiny entries: the pooled buffer grows by doubling through
+		// 32 KiB, 64 KiB, 128 KiB
+		n = 400 + r.Intn(4000)
+		p := make([]string, n)
+		for i := range p {
+			p[i] = fmt.Sprintf("E(%d.%d.0;M(6b;i%d))", 1+i%7, i, i%100)
+		}
+		return "L(" + strings.Join(p, ";") + ")"
 	}
 	p := make([]string, n)
 	for i := range p {
